@@ -18,7 +18,9 @@ def side_table_exchange(t):
     if name not in EXCHANGE:
         return None
     g = " ".join(t.get("generics", []))
-    if "Vec<" in g and any(e in g for e in SIDE_ELEMS):
+    # a list of attachments, or a newtype around one (`ReceivedHandles<OsOpaqueIpcChannel>`): recognised by the element type;
+    # whether the operand is a per-thread table is decided separately (cell_key: reached through RefCell::borrow_mut / a RefCell)
+    if any(e in g for e in SIDE_ELEMS) and ("Vec<" in g or "<" in g):
         return _CANON.get(name, name)
     return None
 
